@@ -197,4 +197,16 @@ CLAIMS = {
                 'units are compatible with everything so only definite mixes are reported; at most 4000 paths per function).',
         'technique': 'argument-provenance rule + who-may-call + flow-sensitive dimension (unit) analysis over CFG paths',
     },
+    'C18': {
+        'text': 'Exact bit packing of several features into words and the bytes of labels are run-time values and NOT decided.  Decided: '
+                'set_feature_value is failure-atomic (no write to the destination can precede a `return false`), the masked write is '
+                'clear-then-set on the word made valid by resize and is dominated by the range test, the face test and the map-identity '
+                'test; the read is guarded the same way; a feature without settings accepts any 16-bit value and one with settings the '
+                'maximum computed from them, where the 16-bit setting value is compared after zero-extension; the constructor moves the bit '
+                'offset to the next chunk on every path on which a field would straddle; both clone sites go through the copy constructor; '
+                'the Sill entry is selected by tag equality with the defaults as fallback; the setting-index test; and the shared '
+                'tag-normalisation rule (space- and zero-padded tags).',
+        'note': 'Trusted: clang 14 CFG and type checker (cast chains), tools/grfacts, rules/c18.py, rules/tagnorm.py, rules/dom.py.',
+        'technique': 'CFG failure-atomicity / dominance rules + cast-chain typing + must-pass on the chunk bump + sibling tag-normalisation rule',
+    },
 }
